@@ -1,0 +1,36 @@
+//go:build verif
+
+package gtab
+
+import "golang.org/x/text/language"
+
+// Exports for the verification harness (/verif, property C14).  Add-only; no behaviour change.
+
+// VerifOtfToBCP47 is otfToBCP47.
+func VerifOtfToBCP47(script, lang string) (language.Tag, error) {
+	return otfToBCP47(otfScript(script), otfLang(lang))
+}
+
+// VerifBCP47ToOtf is bcp47ToOtf.
+func VerifBCP47ToOtf(tag language.Tag) (script, lang string, err error) {
+	s, l, err := bcp47ToOtf(tag)
+	return string(s), string(l), err
+}
+
+// VerifScriptBcp47 returns the script table.
+func VerifScriptBcp47() map[string]string {
+	m := make(map[string]string, len(scriptBcp47))
+	for k, v := range scriptBcp47 {
+		m[string(k)] = v
+	}
+	return m
+}
+
+// VerifLangBcp47 returns the language table.
+func VerifLangBcp47() map[string]string {
+	m := make(map[string]string, len(langBcp47))
+	for k, v := range langBcp47 {
+		m[string(k)] = v
+	}
+	return m
+}
